@@ -117,6 +117,77 @@ def run(repo: Repo, ctx) -> None:
            'without an error', csv.loc, sample='else: raise '
                                                'ConfigurationError')
 
+    # ---- R1b / R8 helpers the round trip and the uniqueness check rely on --
+    st = repo.module(STA)
+    # (a) exclusive-field site is the TOP-MOST ancestor declaring the field
+    # unique: _check_object_set_uniqueness buckets values by it, so sibling
+    # subtypes sharing an exclusive parent field are compared with each other
+    us = repo.functions.get(f'{STA}.CompositeTypeSpec.get_field_unique_site')
+    if us is None:
+        raise AnalysisError('get_field_unique_site not found')
+    loops = [n for n in ast.walk(us.node) if isinstance(n, ast.While)]
+    ok = len(loops) == 1 and not any(isinstance(x, ast.Return)
+                                     for x in ast.walk(loops[0])) and any(
+        isinstance(x, ast.Assign) and norm(x.value).endswith('.parent')
+        for x in ast.walk(loops[0]))
+    ctx.ob('C19.R1', 'CompositeTypeSpec.get_field_unique_site:top-most', ok,
+           'the uniqueness site is no longer the top-most ancestor that '
+           'declares the field exclusive (the walk stops early): values of '
+           'sibling config-object subtypes are bucketed separately and a '
+           'duplicate of an inherited exclusive field is accepted', us.loc,
+           sample='walks to the root; last match wins')
+    cu = repo.func(f'{OPS}._check_object_set_uniqueness')
+    ok = 'get_field_unique_site(' in norm(cu.node) and \
+        'raise errors.ConstraintViolationError' in norm(cu.node)
+    ctx.ob('C19.R1', '_check_object_set_uniqueness:uses-site', ok,
+           'object-set uniqueness no longer buckets by the unique site / '
+           'no longer rejects duplicates', cu.loc,
+           sample='bucket by get_field_unique_site; raise on duplicate')
+    # (b) a remainder of divmod(x, 10**k) printed after a decimal point is
+    # zero-padded to k digits (else 50ms prints as .5 = 500ms)
+    n_frac = 0
+    for f in repo._funcs_of(st):
+        if f.cls is None:
+            continue
+        for n in walk_no_nested(f.node):
+            if isinstance(n, ast.Assign) and isinstance(
+                    n.targets[0], ast.Tuple) and isinstance(
+                        n.value, ast.Call) and call_name(n.value) == 'divmod' \
+                    and len(n.value.args) == 2 and isinstance(
+                        n.value.args[1], ast.Constant) and isinstance(
+                        n.value.args[1].value, int):
+                base_ = n.value.args[1].value
+                k = len(str(base_)) - 1
+                if base_ != 10 ** k or k < 2:
+                    continue
+                rem = norm(n.targets[0].elts[1])
+                uses = []
+                for x in ast.walk(f.node):
+                    if isinstance(x, ast.FormattedValue) and rem in {
+                            y.id for y in ast.walk(x.value)
+                            if isinstance(y, ast.Name)}:
+                        uses.append(x)
+                for x in uses:
+                    n_frac += 1
+                    txt = norm(x.value)
+                    spec = norm(x.format_spec) if x.format_spec else ''
+                    padded = (f"rjust({k}, '0')" in txt
+                              or f'zfill({k})' in txt
+                              or f'0{k}' in spec)
+                    ctx.ob('C19.R4', f'{f.cls.name}.{f.name}:fraction-'
+                           f'padding={rem}', padded,
+                           f'{f.cls.name}.{f.name} prints the remainder '
+                           f'`{rem}` of divmod(.., {base_}) without padding '
+                           f'it to {k} digits: a value below one tenth of '
+                           f'the unit loses its leading zeros (50ms -> '
+                           f'"0.5" = 500ms) and the stored configuration '
+                           f'does not survive the JSON / DESCRIBE round '
+                           f'trip', f'{f.module.rel()}:{x.lineno}',
+                           sample=txt[:60])
+    if n_frac < 1:
+        raise AnalysisError('C19: no fractional formatting site found in '
+                            'statypes (anchor vanished)')
+
     # ---- R2 exhaustiveness ------------------------------------------------
     ctx.floor('C19.R2', 6)
     opcode = repo.cls(f'{OPS}.OpCode')
